@@ -86,6 +86,8 @@ pub enum Req {
     /// mark a position consumed under a tag that is not in the map
     MarkForeign { nth: usize },
     CloneTracker,
+    /// clone the shared tracker and keep the clone alive (never used again) while consumption continues on the original
+    CloneHold,
     Retokenise,
     Split { cfg: usize },
     Repetitive { marker: TagRef },
@@ -284,6 +286,7 @@ enum Cmd {
     Take(String),
     Mark(String, usize),
     CloneTracker,
+    CloneHold,
     Retokenise,
     Split(SequenceConfig),
     Repetitive(String),
@@ -314,6 +317,7 @@ fn consumer_loop(text: String, tracker: Arc<Mutex<FieldConsumptionTracker>>, rx:
     // command (a `HashMap::new()` here would key the map at thread start-up, in
     // an order the scheduler does not decide)
     let mut map_slot: Option<FieldMap> = None;
+    let mut held: Vec<FieldConsumptionTracker> = vec![];
     while let Ok(cmd) = rx.recv() {
         if matches!(cmd, Cmd::Quit) {
             break;
@@ -369,6 +373,11 @@ fn consumer_loop(text: String, tracker: Arc<Mutex<FieldConsumptionTracker>>, rx:
                     let mut t = tracker.lock().unwrap();
                     let c = t.clone();
                     *t = c;
+                    Resp::Done
+                }
+                Cmd::CloneHold => {
+                    let t = tracker.lock().unwrap();
+                    held.push(t.clone());
                     Resp::Done
                 }
                 Cmd::Retokenise => Resp::Done,
@@ -830,6 +839,11 @@ fn run_phase(ctx: &Arc<seam::RunCtx>, e_h: u64, text: &str, occs: &[(String, Str
                 count(&mut ph, "probe.clone_and_continue");
                 ph.history.push(format!("{si} c{c} clone"));
             }
+            Req::CloneHold => {
+                call(c, Cmd::CloneHold);
+                count(&mut ph, "probe.clone_kept_alive");
+                ph.history.push(format!("{si} c{c} clone_hold"));
+            }
             Req::Retokenise => {
                 if let Resp::Tokenised(r, ord) = call(c, Cmd::Retokenise) {
                     count(&mut ph, "ops.retokenise");
@@ -982,7 +996,7 @@ impl Engine for C16 {
                 27..=29 => Req::Take { tag: TagRef::KeyOf(w.below(1000)) },
                 30 => Req::Remark { nth: w.below(1000) },
                 31 => Req::MarkForeign { nth: w.below(1000) },
-                32 => Req::CloneTracker,
+                32 => if w.chance(1, 2) { Req::CloneTracker } else { Req::CloneHold },
                 33 => Req::Retokenise,
                 34..=37 => Req::Split { cfg: w.below(64) },
                 40..=42 => Req::MarkAhead { tag: TagRef::KeyOf(w.below(1000)), nth: w.below(8) },
@@ -1164,7 +1178,7 @@ impl Engine for C16 {
         if spec.mono_tick_ns >= 20_000_000 && out.counters.get("seam.monotonic_clock_reads").copied().unwrap_or(0) > 0 {
             out.count("fault.clock.slow_node_monotonic_tick_observed", 1);
         }
-        let shape: Vec<String> = spec.script.iter().map(|s| format!("{}{}", s.consumer, match &s.req { Req::Find { constraint, .. } => if constraint.is_some() { "Fc" } else { "F" }, Req::FindNumbered { .. } => "N", Req::Peek { .. } => "P", Req::Take { .. } => "T", Req::Remark { .. } => "R", Req::MarkForeign { .. } => "M", Req::CloneTracker => "C", Req::Retokenise => "K", Req::Split { .. } => "S", Req::Repetitive { .. } => "I", Req::MarkAhead { .. } => "A", Req::FindInSeq { .. } => "Q", Req::FindPresent { .. } => "V" })).collect();
+        let shape: Vec<String> = spec.script.iter().map(|s| format!("{}{}", s.consumer, match &s.req { Req::Find { constraint, .. } => if constraint.is_some() { "Fc" } else { "F" }, Req::FindNumbered { .. } => "N", Req::Peek { .. } => "P", Req::Take { .. } => "T", Req::Remark { .. } => "R", Req::MarkForeign { .. } => "M", Req::CloneTracker => "C", Req::CloneHold => "H", Req::Retokenise => "K", Req::Split { .. } => "S", Req::Repetitive { .. } => "I", Req::MarkAhead { .. } => "A", Req::FindInSeq { .. } => "Q", Req::FindPresent { .. } => "V" })).collect();
         out.shape_digest = fnv_str(&shape.join(" "));
         out.count(&format!("consumers.{}", spec.consumers.clamp(1, 4)), 1);
         (out, resolved)
